@@ -191,8 +191,8 @@ def check(tier, seed):
         return None
 
     return R.finish(RULE, search=search,
-                    partial_note="see Properties/C09.v: the fog and traversal facts the walk relies on are theorems; the schedule-level "
-                                 "statements rest on this run's oracle and correspondence")
+                    partial_note="C09_* (tree-level LTS) and C09_D_* (the database-level walk refines it) are theorems for every schedule of steps and direct "
+                                 "writes; batches / snapshots between steps and the walker's exception handling rest on this run's oracle")
 
 
 def replay(payload):
